@@ -62,7 +62,9 @@ Layouts(kinds, dimsets) ==
             k \in kinds, o \in {"C", "F"}, r \in BOOLEAN, ic \in Incs(Len(dm)), lc \in {"cells", "points"}}
          : dm \in dimsets}
 AllDims == UNION {[1..d -> 1..3] : d \in 1..3}
-AllLayouts == Layouts({"uniform", "rect"}, AllDims)
+(* four nodes on one axis: the smallest grids with unequal cell counts > 1 on two axes *)
+WideDims == {<<4, 3>>, <<3, 4>>, <<4, 3, 2>>, <<2, 4, 3>>}
+AllLayouts == Layouts({"uniform", "rect"}, AllDims \cup WideDims)
 Esri == {[kind |-> "esri", dims |-> dm, order |-> o, rev |-> TRUE, inc |-> <<TRUE, FALSE>>, loc |-> "cells"] :
            dm \in {<<2, 2>>, <<3, 2>>, <<2, 3>>, <<3, 3>>, <<4, 3>>}, o \in {"C", "F"}}
 PairDims == {<<2>>, <<3>>, <<2, 3>>, <<3, 3>>, <<1, 3>>, <<3, 2>>, <<2, 3, 2>>, <<3, 2, 3>>}
